@@ -176,6 +176,9 @@ VARIANTS = [
     V("twin: labels always broadcast in the partial-axis branch", ("C19", "C08"), "", "core.py", '        if by_.shape != array.shape[-by_.ndim :]:\n            # size-1 dimensions of `by`: every kept slice needs its own copy of the labels\n            by_ = np.broadcast_to(by_, array.shape[-by_.ndim :])\n', '        by_ = np.broadcast_to(by_, array.shape[-by_.ndim :])\n', expect="silent"),
     # ---------------- R-REGKEY extended (C19)
     V("xarray fallback dispatches on the user's func without a check", ("C19",), "R-REGKEY", "xarray.py", '        if not hasattr(ds_broad, func):\n            raise NotImplementedError(\n                f"func={func!r} is not supported when reducing along dimensions that are not present in `by`."\n            )\n', '', must_mention="getattr"),
+    # ---------------- R-KINDMISSING (C10) -- the unchanged tree carries one *known* finding of this rule (DESIGN 6, K1)
+    V("fill shortcut for another set of kinds with missing values (a different violation than the known one)", ("C10",), "R-KINDMISSING", "core.py", 'and array.dtype.kind != "f":\n        # nothing to do, no NaNs!', 'and array.dtype.kind not in "fc":\n        # nothing to do, no NaNs!', must_mention="MOm"),
+    V("twin: fill shortcut restricted to kinds without a missing value", ("C10",), "", "core.py", 'and array.dtype.kind != "f":\n        # nothing to do, no NaNs!', 'and array.dtype.kind in "iub":\n        # nothing to do, no NaNs!', expect="silent"),
     # ---------------- R-LOOPSTORE (C09, C19)
     V("cohort map overwrites a repeated block set", ("C09", "C19"), "R-LOOPSTORE", "core.py", '        merged_cohorts[chunk] = sorted(merged_cohorts.get(chunk, []) + cohort)', '        merged_cohorts[chunk] = cohort', must_mention="merged_cohorts"),
     V("twin: cohort map merges under an explicit membership test", ("C09", "C19", "C02"), "", "core.py", '        merged_cohorts[chunk] = sorted(merged_cohorts.get(chunk, []) + cohort)',
